@@ -114,7 +114,7 @@ def evaluate__parenthesized_expression(self: XPathToken, context: ta.ContextType
                 # The fixed arguments are evaluated now, in the scope of the partial application
                 items: list[XPathToken] = [
                     tk if tk.symbol == '?' and not tk else
-                    ValueToken(self.parser, value=tk.evaluate(context)) for tk in tokens
+                    ValueToken(self.parser, value=tk.evaluate(copy(context))) for tk in tokens
                 ]
                 if func.label in ('partial function', 'inline partial function'):
                     # Fill the placeholders of the partial function, keeping its fixed arguments
@@ -126,7 +126,7 @@ def evaluate__parenthesized_expression(self: XPathToken, context: ta.ContextType
                 func.to_partial_function()
                 return func
 
-            arguments: list[ta.ValueType] = [tk.evaluate(context) for tk in tokens]
+            arguments: list[ta.ValueType] = [tk.evaluate(copy(context)) for tk in tokens]
 
             if func.label == 'partial function' and func[0].symbol == '?' and len(func[0]):
                 if context is None:
@@ -207,7 +207,7 @@ def select__let_expression(self: XPathToken, context: ta.ContextType = None) \
 
     for k in range(0, len(self) - 1, 2):
         varname = cast(str, self[k][0].value)
-        value = self[k+1].evaluate(context)
+        value = self[k+1].evaluate(copy(context))  # the variables are shared
         context.variables[varname] = value
 
     yield from self[-1].select(context)
